@@ -582,6 +582,20 @@ def r11_7(chk, so):
             if ix and len(ix) == 2:
                 reads.setdefault(comp, set()).add(ix)
     chk.need(set(reads) == {0, 1, 2}, f"encode_symm_str: rotation entries consulted per component not recognised: {reads}")
+    # sibling agreement with encode_symm_int, which rounds the entries: a rotation that is exact up to 1e-16 must print like the exact one
+    int_rounds = any(e.kind == "call" and call_name(e.value.as_atom() or ()) in ("round", "numpy.round", "numpy.rint") for e in so.ev("encode_symm_int").events)
+    raw = []
+    import re as _re
+    for e in ev.events:
+        if e.kind != "test" or e.value is None:
+            continue
+        k = e.value.key()
+        stripped = _re.sub(r"(int\()?(numpy\.)?(round|rint)\((numpy\.(asarray|array)\()?%s\)?(\[[^\]]*\])+\)\)?" % _re.escape(rot), "R", k)
+        if f"{rot}[" in stripped or f"({rot})[" in stripped:
+            raw.append(str(e.value)[:60])
+    chk.ob("R11.7", SO, "encode_symm_str", "rotation entries are rounded before they are tested, as encode_symm_int rounds them (equal operations print "
+           "identically even with rounding noise in the matrix)", int_rounds and not raw, fingerprint="encoder-rounds",
+           expected="c = int(round(rotation[i][j]))", found=raw[:3])
     bad = {i: sorted(map(str, (x for x in r if x[0] != i))) for i, r in reads.items() if any(x[0] != i for x in r)}
     chk.ob("R11.7", SO, "encode_symm_str", "entry (i, j) of the rotation decides the sign of symbol j in component i",
            not bad, fingerprint="encoder-rows", expected="component i reads rotation[i][j] only",
